@@ -210,10 +210,21 @@ def derive(rng, A, force=None):
         m = ((a[0] + b[0]) / 2, (a[1] + b[1]) / 2)
         xs, ys = [p[0] for p in ring], [p[1] for p in ring]
         cx, cy = (min(xs) + max(xs)) / 2, (min(ys) + max(ys)) / 2
-        k = rng.choice([0, 1, 2, 3, 4, 5, 6, 6, 7, 7, 7, 8, 9, 10, 11, 12, 12, 12]) if A.holes else rng.randrange(12)
+        k = rng.choice([0, 1, 2, 3, 4, 5, 6, 6, 7, 7, 7, 8, 9, 10, 11, 12, 12, 12, 13, 14]) if A.holes else \
+            rng.choice(list(range(12)) + [13, 14])
         annulus = rng.random() < 0.5
         if force is not None:
             k, annulus = force
+        if k in (13, 14):  # on the *line through* an edge, beyond the edge's end: collinear, not touching
+            # (prefers an axis-parallel edge: a degenerate bounding interval in one coordinate)
+            cands = [j for j in range(len(ring)) if ring[j][0] == ring[(j + 1) % len(ring)][0] or ring[j][1] == ring[(j + 1) % len(ring)][1]]
+            j = rng.choice(cands) if cands and rng.random() < 0.8 else i
+            ea, eb = ring[j], ring[(j + 1) % len(ring)]
+            t = rng.choice([F(1, 4), F(1, 2), 1, 2])
+            q = (eb[0] + (eb[0] - ea[0]) * t, eb[1] + (eb[1] - ea[1]) * t)
+            if k == 13:
+                return planar.PShape('pt', pts=[q])
+            return planar.PShape('line', pts=[q, (q[0] + (eb[0] - ea[0]) + (eb[1] - ea[1]) / 2, q[1] + (eb[1] - ea[1]) - (eb[0] - ea[0]) / 2)])
         if k == 12:  # straddles an edge of a hole without leaving the shell and without covering a hole vertex
             h = A.holes[0][:-1]
             j = rng.randrange(len(h))
@@ -272,10 +283,15 @@ def derive(rng, A, force=None):
             return planar.PShape('line', pts=[(min(xs) - F(1, 2), cy), (max(xs) + F(1, 2), cy)])
         return planar.PShape('box', nw=(cx, max(ys) + F(1, 2)), se=(max(xs) + F(1, 2), cy))
     if A.kind == 'line':
-        k = rng.choice([0, 1, 2, 2, 2, 3, 4])
+        k = rng.choice([0, 1, 2, 2, 2, 3, 4, 5, 5])
+        if force is not None:
+            k = force[0]
         i = rng.randrange(len(A.pts) - 1)
         a, b = A.pts[i], A.pts[i + 1]
         m = ((a[0] + b[0]) / 2, (a[1] + b[1]) / 2)
+        if k == 5:   # on the line through a segment, beyond its end
+            t = rng.choice([F(1, 4), F(1, 2), 1, 2])
+            return planar.PShape('pt', pts=[(b[0] + (b[0] - a[0]) * t, b[1] + (b[1] - a[1]) * t)])
         if k == 0:
             return planar.PShape('pt', pts=[m])
         if k == 1:
@@ -331,6 +347,7 @@ def placement_tag(A, B):
 
 def check(run):
     run.prove(MODULE, THEOREMS)
+    run.source_tie(['SrcRelate'], 'GeoVerif.Props.C02Src', ['GV.C02Src.' + t for t in ('containsPoint_eq', 'containsPoly_eq', 'containsLine_eq', 'containsMulti_eq', 'intersectsMulti_eq', 'intersectsPoint_eq', 'intersectsPoly_eq', 'intersectsLine_eq', 'src_contains_imp_intersects')])
     run.corpus(impl, spec)
     rng = run.rng
 
@@ -422,7 +439,7 @@ def check(run):
         bases = [rnd_poly(rng, holes_ok=False), rnd_box(rng), next(q for q in iter(lambda: rnd_poly(rng), None) if q.holes),
                  next(q for q in iter(lambda: rnd_box(rng), None) if q.holes)]
         for A in bases:
-            for k in range(13):
+            for k in range(15):
                 for annulus in ((False, True) if k == 7 else (False,)):
                     if k in (6, 7, 12) and not A.holes:
                         continue
@@ -430,6 +447,13 @@ def check(run):
                     for X, Y in ((A, B), (B, A)):
                         for op in ('inter', 'contains'):
                             lines4.append(f'rel.{op} {X.tokens()} | {Y.tokens()}')
+        for _ in range(4):      # paths, incl. axis-parallel segments, against every placement of theirs
+            A = rnd_line(rng) if rng.random() < 0.5 else planar.PShape('line', pts=[(F(1), F(0)), (F(1), F(2)), (F(3), F(2))])
+            for k in range(6):
+                B = derive(rng, A, force=(k, False))
+                for X, Y in ((A, B), (B, A)):
+                    for op in ('inter', 'contains'):
+                        lines4.append(f'rel.{op} {X.tokens()} | {Y.tokens()}')
     run.run_cases('every-relational-placement', lines4, impl, spec,
                   tag=lambda ln, a: ['placement:' + ln.split()[0] + ':' + (a if a in 'TF' else 'ERR')])
 
